@@ -159,6 +159,30 @@ let handle () =
       | Un (o, t) -> "(" ^ ocaml_string o ^ " " ^ show t ^ ")"
       | Bin (o, l, r) -> "(" ^ ocaml_string o ^ " " ^ show l ^ " " ^ show r ^ ")" in
     show (parse_tbl tbl first rest)
+  | "thy" ->
+    (* thy <ini> <fin> <fuel> <nsteps> { <nroots> { <k> <raw> } } : the body theory model over several horizons; raw formulas are built
+       through the regenerated create_formula table; answer: per horizon the events of the log and the pending list *)
+    let ini = nat () in let fin = nat () in let fuel = nat () in
+    let rec raw () =
+      match next () with
+      | "a" -> RAtom (nat ())
+      | "kw" -> RKw (coq_string (next ()))
+      | "o1" -> let o = coq_string (next ()) in let x = raw () in ROp1 (o, x)
+      | "o2" -> let o = coq_string (next ()) in let x = raw () in let y = raw () in ROp2 (o, x, y)
+      | "on" -> let o = coq_string (next ()) in let n = nat () in let y = raw () in ROpN (o, n, y)
+      | s -> failwith ("raw " ^ s) in
+    let bad = ref false in
+    let steps = list (fun () -> list (fun () -> let k = nat () in let r = raw () in
+                                         match build ini fin r with Some b -> (k, b) | None -> bad := true; (k, Cst false))) in
+    if !bad then "error formula cannot be built from the regenerated create_formula table" else
+    let lit (pos, v) = (if pos then "+" else "-") ^ (match v with VU (a, k) -> Printf.sprintf "U%d.%d" (int_of_nat a) (int_of_nat k) | VX n -> Printf.sprintf "X%d" (int_of_nat n)) in
+    let ev = function
+      | ENew (n, kd, _) -> Printf.sprintf "N %d %s" (int_of_nat n) (match kd with KChoice -> "choice" | KFalse -> "false" | KExt None -> "free" | KExt (Some true) -> "ext1" | KExt (Some false) -> "ext0")
+      | EGroup (_, cs) -> "G " ^ String.concat " / " (List.map (fun c -> String.concat " " (List.map lit c)) cs)
+      | EFree n -> Printf.sprintf "F %d" (int_of_nat n) in
+    (match run_model fuel steps with
+     | None -> "error model run fails (fuel or an entry set twice)"
+     | Some res -> String.concat " || " (List.map (fun (evs, pend) -> String.concat " ; " (List.map ev evs) ^ " | " ^ string_of_int (List.length pend)) res))
   | "defaults" ->
     Printf.sprintf "%d %s %s" (int_of_nat default_imin_gen)
       (match default_imax_gen with None -> "-" | Some m -> string_of_int (int_of_nat m))
